@@ -11,6 +11,7 @@ import Driver.Hybrid
 import Driver.Derive
 import Driver.Proto
 import Driver.Rand
+import Driver.Heap
 /-!
   `tvdrv`: one line in, one line out. The first token selects the model.
   Unknown or malformed lines answer `bad-op` (never a default).
@@ -64,6 +65,10 @@ def dispatch (st : DState) (line : String) : DState × String :=
     | none => (st, "bad-op")
   | "V" :: rest =>
     match Driver.Dv.handle rest with
+    | some out => (st, out)
+    | none => (st, "bad-op")
+  | "B" :: rest =>
+    match Driver.Hp.handle rest with
     | some out => (st, out)
     | none => (st, "bad-op")
   | "R" :: rest =>
